@@ -1,11 +1,12 @@
 #!/bin/bash
 # Confirm a sub-agent's seeded defect and run our checks against it.
+V="$(cd "$(dirname "$0")/.." && pwd)"
 # usage: tools/seedcheck.sh <seed-id> <worktree> <check ids...>
 # 1. in the scratch worktree: existing suite passes with the change, demo fails with / passes without
 # 2. apply to /repo, run the quick checks named, undo.
 id=$1; wt=$2; shift 2
 cd $wt || exit 2
-out=/verif/seeded/$id; mkdir -p $out
+out=$V/seeded/$id; mkdir -p $out
 cp OUT/patch.diff $out/patch.diff; cp OUT/seed_demo.rs $out/seed_demo.rs 2>/dev/null; cp OUT/notes.md $out/notes.md 2>/dev/null
 export CARGO_NET_OFFLINE=true
 [ -n "$SEED_RUSTFLAGS" ] && export RUSTFLAGS="$SEED_RUSTFLAGS"
@@ -24,8 +25,8 @@ if [ -n "$(git -C /repo status --porcelain --untracked-files=no)" ]; then echo "
 git -C /repo apply $out/patch.diff || { echo "patch does not apply to /repo"; exit 2; }
 res=""
 for p in "$@"; do
-  ./check $p --tier quick > /verif/.build/seed-$id-$p.log 2>&1; code=$?
-  rule=$(grep -m1 "rule=" /verif/.build/seed-$id-$p.log | sed 's/^ *//' | cut -c1-160)
+  ./check $p --tier quick > $V/.build/seed-$id-$p.log 2>&1; code=$?
+  rule=$(grep -m1 "rule=" $V/.build/seed-$id-$p.log | sed 's/^ *//' | cut -c1-160)
   echo "check $p exit=$code $rule"
   res="$res $p:$code"
 done
